@@ -216,7 +216,7 @@ oscore_find_context(const coap_context_t *c_context,
           if (pt->id_context != NULL) {
             if (ctxkey_id->length != pt->id_context->length)
               ok += 1;
-            else
+            else if (ctxkey_id->length != 0)
               ok = ok + (memcmp(pt->id_context->s,
                                 ctxkey_id->s,
                                 ctxkey_id->length) != 0);
